@@ -67,7 +67,7 @@ func foldWouldOverdraw(db *mDB, ps []ledger.Posting) bool {
 	over := false
 	for _, p := range ps {
 		s := get(p.Source, p.Asset)
-		if p.Source != "world" && s.Cmp(p.Amount) < 0 {
+		if p.Source != "world" && p.Amount.Sign() > 0 && s.Cmp(p.Amount) < 0 {
 			over = true
 		}
 		s.Sub(s, p.Amount)
